@@ -353,6 +353,8 @@ def stmts(depth, in_loop=False, in_switch=False, full=True, _memo={}):
             out.append((f"switch-bare({sg})", "switch (a) case #: " + t))
             out.append((f"switch-chain({sg})", "switch (a) { case #: case #: " + t + " case #: b = 1; break; }"))
             out.append((f"switch-fall({sg})", "switch (a) { case #: c = 1; " + t + " case #: d = 2; }"))
+            # three stacked labels followed by several statements
+            out.append((f"switch-chain3({sg})", "switch (a) { case #: case #: case #: " + t + " d = 2; c = 3; break; case #: c = 1; }"))
         for sg, t in sub:
             if "case" not in sg and "default" not in sg:
                 out.append((f"switch-default({sg})", "switch (a) { case #: c = 1; default: case #: " + t + " }"))
